@@ -147,6 +147,10 @@ class System:
                                                        ("lognormal", "normal"), ("lognormal", "normal"),
                                                        ranges):
             ops.append(dict(op="F", n=n, maxit=maxit, dfn=dfn, dmc=dmc, rng=list(r)))
+            if dfn == dmc and maxit == max(root["maxits"]):
+                # same range and the same non-None kwargs as stored: the entry peak search takes the
+                # early return of update_peaks_bounded and rejections made BEFORE the call persist
+                ops.append(dict(op="F", n=n, maxit=maxit, dfn=dfn, dmc=dmc, rng=list(r), kw={}))
         for a in range(len(self.csets)):
             for i in range(self.W):
                 ops.append(dict(op="M", az=a, i=i))
@@ -367,6 +371,15 @@ QUICK_SETS = [
 ]
 
 
+LOPSIDED = [
+    ["p1", "p1", "p2", "p2", "p2", "p3", "p3", "p4", "p5", "p11"],
+    ["p1", "p2", "p2", "p3", "p3", "p3", "p4", "p4", "p6", "p10", "p11"],
+    ["p2", "p2", "p2", "p3", "p4", "p5", "p7", "p11", "p11"],
+    ["p1", "p1", "p1", "p2", "p3", "p5", "p8", "p11"],
+    ["p3", "p3", "p4", "p4", "p4", "p5", "p5", "p6", "p9", "p11", "p1"],
+]
+
+
 def roots(tier, seed):
     out = []
     if tier == "quick":
@@ -380,6 +393,9 @@ def roots(tier, seed):
                         maxits=[1, 2, 50], n_ranges=1))
         out.append(dict(kind="trad", grid="lin", F=9, shapes=["p1", "p3", "p3", "p4", "p4", "p6"], depth=2,
                         ns=[0.5, 1, 2], maxits=[1, 2, 50], n_ranges=1))
+        for s in LOPSIDED[:3]:
+            out.append(dict(kind="trad", grid="lin", F=13, shapes=s, depth=1, ns=[0.5, 0.8, 1, 1.5],
+                            maxits=[1, 3, 50], n_ranges=1, metamorphic=False))
         for a, b in ((QUICK_SETS[0], QUICK_SETS[3]), (QUICK_SETS[2], QUICK_SETS[8]),
                      (QUICK_SETS[9], QUICK_SETS[9])):
             m = min(len(a), len(b))
@@ -401,6 +417,10 @@ def roots(tier, seed):
     for combo in itertools.combinations_with_replacement(["p1", "p3", "p4", "p6", "p7"], 6):
         out.append(dict(kind="trad", grid="lin", F=9, shapes=list(combo), depth=1,
                         ns=[0.5, 1, 1.5, 2, 3], maxits=[1, 2, 3, 50], n_ranges=2))
+    for s in LOPSIDED:
+        for g in ("lin", "geo"):
+            out.append(dict(kind="trad", grid=g, F=13, shapes=s, depth=2, ns=[0.5, 0.8, 1, 1.5, 2],
+                            maxits=[1, 2, 3, 50], n_ranges=2))
     for a, b in itertools.combinations(QUICK_SETS[:8], 2):
         m = min(len(a), len(b))
         out.append(dict(kind="azi", grid="lin", F=7, shapes_by_az=[a[:m], b[:m]], depth=2,
